@@ -166,16 +166,21 @@ class Cfg:
         self.realms = []
 
     def text(self):
-        L = []
+        L, G = [], []
         if self.opts["addttl"]:
-            L.append("addTTL %d" % self.opts["addttl"])
+            G.append("addTTL %d" % self.opts["addttl"])
         if self.opts["ttl"] != (27262, 1):
             a, b = self.opts["ttl"]
-            L.append("TTLAttribute %s" % ("%d" % a if b == 256 else "%d:%d" % (a, b)))
+            G.append("TTLAttribute %s" % ("%d" % a if b == 256 else "%d:%d" % (a, b)))
         if self.opts["loopprev"]:
-            L.append("LoopPrevention on")
+            G.append("LoopPrevention on")
         if not self.opts["verifyeap"]:
-            L.append("VerifyEAP off")
+            G.append("VerifyEAP off")
+        # the global options may stand anywhere outside the blocks (radsecproxy.conf(5)): before them, after them, or some of
+        # each. Where they go is a function of the configuration itself, so no random draw is consumed.
+        place = int(hashlib.sha1(repr((G, [c["name"] for c in self.clients], [x["secret"] for x in self.servers])).encode()).hexdigest(), 16) % 4
+        tail = G if place == 0 else (G[len(G) // 2:] if place == 1 else [])
+        L += [g for g in G if g not in tail]
         for rw in self.rewrites:
             L.append(rw.text())
         for c in self.clients:
@@ -235,6 +240,7 @@ class Cfg:
             if r["accresp"]:
                 L.append("    AccountingResponse on")
             L.append("}")
+        L += ["#tail"] + tail if tail else []
         return "\n".join(L) + "\n"
 
     def tokens(self):
@@ -268,9 +274,11 @@ class Cfg:
         # the same configuration spread over the files of ONE wildcard Include: they are read in alphabetical order and
         # the blocks register in the order written (radsecproxy.conf(5)), so clients, servers and realms keep their order
         lines = txt.split("\n")
-        blocks, cur, head = [], [], []
+        blocks, cur, head, tail = [], [], [], []
         for l in lines:
-            if cur:
+            if l == "#tail" or tail:
+                tail.append(l)
+            elif cur:
                 cur.append(l)
                 if l == "}":
                     blocks.append("\n".join(cur))
@@ -286,7 +294,7 @@ class Cfg:
             with open(os.path.join(d, "%02d-part.conf" % (10 + i // per * 10)), "w") as f:
                 f.write("\n".join(blocks[i:i + per]) + "\n")
         with open(path, "w") as f:
-            f.write("\n".join(head) + "\nInclude %s/*.conf\n" % d)
+            f.write("\n".join(head) + "\nInclude %s/*.conf\n" % d + "\n".join(tail) + ("\n" if tail else ""))
         return path
 
     def cfg_op(self):
